@@ -83,22 +83,24 @@ type Fault struct {
 }
 
 type Opts struct {
-	Sched      *common.Rng                                                             // job completion order (nil: as they come)
-	Faults     []Fault                                                                 // transient faults injected into tier2 jobs (each costs one retry inside the worker)
-	Feed       func(h bstream.Handler, start uint64, stop uint64, cursor string) error // custom linear feed (forks); nil = canonical chain
-	OnPipe     func(p *pipeline.Pipeline)
-	Timeout    time.Duration
-	RealWorker bool // the REAL work.RemoteWorker (retry loop, back-off sleeps, error classification) in front of in-process tier-2 jobs (realworker.go); Faults may then also be "exec"
-	WaitRamp   bool // let the first job take >4 s so that the real worker pool leaves its ramp-up phase (workers > 1 really run in parallel)
+	Sched          *common.Rng                                                             // job completion order (nil: as they come)
+	Faults         []Fault                                                                 // transient faults injected into tier2 jobs (each costs one retry inside the worker)
+	Feed           func(h bstream.Handler, start uint64, stop uint64, cursor string) error // custom linear feed (forks); nil = canonical chain
+	OnPipe         func(p *pipeline.Pipeline)
+	Timeout        time.Duration
+	NoTimeoutRetry bool // do not re-run a request that hit its time-out
+	RealWorker     bool // the REAL work.RemoteWorker (retry loop, back-off sleeps, error classification) in front of in-process tier-2 jobs (realworker.go); Faults may then also be "exec"
+	WaitRamp       bool // let the first job take >4 s so that the real worker pool leaves its ramp-up phase (workers > 1 really run in parallel)
 }
 
 type Result struct {
-	Msgs       []Msg
-	Err        error
-	Jobs       []string // "stage/segment" in start order
-	Retries    int
-	Tier2Codes []string // real worker: the status codes tier 2 answered for failed attempts
-	Pipe       *pipeline.Pipeline
+	Msgs        []Msg
+	Err         error
+	Jobs        []string // "stage/segment" in start order
+	Retries     int
+	SlowRetries int      // the request hit its time-out once and completed (or not) on the second, four times longer attempt
+	Tier2Codes  []string // real worker: the status codes tier 2 answered for failed attempts
+	Pipe        *pipeline.Pipeline
 }
 
 func (r *Result) ErrClass() string {
@@ -329,7 +331,31 @@ var runMu sync.Mutex
 
 func init() { bstream.GetProtocolFirstStreamableBlock = 0 }
 
+// Run: one request against the real tier1 service.  A request that does not finish within its time-out is run a
+// second time, on the cache as the first attempt left it, with four times the time-out: a machine under load (sixteen
+// scenarios in parallel, other checks running) can stretch a 50 ms request beyond any fixed bound, while a request that
+// is really stuck is stuck again.  Only the second time-out is reported as "the request does not finish"; the first is
+// counted (Result.SlowRetries).
 func (w *World) Run(dir string, req Req, opts Opts) *Result {
+	r := w.runOnce(dir, req, opts)
+	if r.Err != nil && r.ErrClass() == "timeout" && !opts.NoTimeoutRetry && opts.Feed == nil { // (a custom feed records into the caller's state: never re-run)
+		o2 := opts
+		if o2.Timeout == 0 {
+			o2.Timeout = 60 * time.Second
+		}
+		o2.Timeout *= 4
+		if o2.Sched != nil {
+			o2.Sched = o2.Sched.Fork()
+		}
+		r2 := w.runOnce(dir, req, o2)
+		r2.SlowRetries = r.SlowRetries + 1
+		r2.Jobs = append(append([]string{}, r.Jobs...), r2.Jobs...)
+		return r2
+	}
+	return r
+}
+
+func (w *World) runOnce(dir string, req Req, opts Opts) *Result {
 	Register()
 	os.MkdirAll(filepath.Join(dir, "merged"), 0o755)
 	base, err := dstore.NewStore(filepath.Join(dir, "store"), "zst", "zstd", true)
